@@ -19,7 +19,7 @@ func init() {
 			"(E1) no error returned by a callee is dropped: on every path it is tested, returned or forwarded before being overwritten; wherever a protoscan message's Next() reports no further field, every path looks at its Err() before leaving (in the function or, for a message parameter, in every caller); " +
 			"(E2) io.EOF can only originate from the first read of a block: the io.EOF of any other io.ReadFull (evaluated on the abstract value io.EOF through mappers, inline tests and intermediate callers) cannot reach the caller of the block reader unchanged; " +
 			"(E3) every slice `buf[:n]` of a scratch buffer made with a constant size (followed through parameters and re-slices) is reached only when guard facts, at the slice or at every success return of the function n comes from, establish n <= a constant not above the buffer's size and, for signed n, n >= 0; " +
-			"(E4) a blob that carries data in none of the supported encodings only reaches returns of a non-nil error; on the zlib path the decompressed length is compared with raw_size before data is returned, and that length is the length of the whole decompressed stream: the call that drains the decompressor reads the decompressor itself, not a wrapper limited to raw_size or less; " +
+			"(E4) a blob that carries data in none of the supported encodings only reaches returns of a non-nil error; on the zlib path the decompressed length is compared with raw_size before data is returned, and that length is the length of the whole decompressed stream: the call that drains the decompressor reads the decompressor itself, not a wrapper limited to raw_size or less (also when the zlib branch is a helper that is handed the getter results as parameters); " +
 			"(E5) a header is only accepted through the required-features gate (which may live in a helper); when the reader finds a block whose type is not OSMData, every path sends (or returns to the sending caller) a pair whose Err holds an error created for it and which carries no blob, no path skips the block; " +
 			"(E6) every slice/string index or slice expression reachable from the decoding goroutines has a proof from the idiom list (constant, range key, guard facts establishing index < len with a non-negative index, counter into a buffer sized by Iterator.Count of the iterator driving the loop), optional message fields are nil-guarded or `required`; " +
 			"(E7) no panic call and no unchecked type assertion is reachable from the goroutine roles; " +
@@ -45,8 +45,8 @@ func init() {
 			{ID: "E8", Floor: 2, Doc: "Err maps only io.EOF to nil", Run: c06E8},
 			{ID: "E9", Floor: 6, Doc: "string references are checked against the current block's string table: cached block parameters are reset before each block (shared with C01.R3)", Run: c01R3},
 		},
-		Benign: append(append(append([]core.Mutant{}, c06Benign...), c06Benign2...), c06Benign3...),
-		Mutants: []core.Mutant{
+		Benign: append(append(append(append([]core.Mutant{}, c06Benign...), c06Benign2...), c06Benign3...), c06Benign4...),
+		Mutants: append(append([]core.Mutant{}, c06Mutants2...), []core.Mutant{
 			{Name: "drop-iterator-error", File: "osmpbf/decode_data.go", Find: "\t\t\tdec.lats, err = msg.Iterator(dec.lats)\n\t\t\tfoundLats = true", Replace: "\t\t\tdec.lats, _ = msg.Iterator(dec.lats)\n\t\t\tfoundLats = true", ExpectRule: "E1", ExpectConstruct: "scanDenseNodes"},
 			{Name: "drop-msg-err", File: "osmpbf/decode_data.go", Find: "\tif msg.Err() != nil {\n\t\treturn msg.Err()\n\t}\n\n\t// we need the offsets", Replace: "\t// we need the offsets", ExpectRule: "E1", ExpectConstruct: "scanPrimitiveBlock"},
 			{Name: "overwrite-err-before-test", File: "osmpbf/decode_data.go", Find: "\t\t\tdec.vals, err = msg.Iterator(dec.vals)\n\t\t\tfoundVals = true\n\t\tcase 4: // info\n\t\t\td, err := msg.MessageData()\n\t\t\tif err != nil {\n\t\t\t\treturn nil, err\n\t\t\t}\n\n\t\t\tinfo := protoscan.New(d)\n\t\t\tfor info.Next() {\n\t\t\t\tswitch info.FieldNumber() {\n\t\t\t\tcase 1:\n\t\t\t\t\tv, err := info.Int32()\n\t\t\t\t\tif err != nil {\n\t\t\t\t\t\treturn nil, err\n\t\t\t\t\t}\n\t\t\t\t\tway.Version", Replace: "\t\t\tdec.vals, err = msg.Iterator(dec.vals)\n\t\t\tfoundVals = true\n\t\t\terr = nil\n\t\tcase 4: // info\n\t\t\td, err := msg.MessageData()\n\t\t\tif err != nil {\n\t\t\t\treturn nil, err\n\t\t\t}\n\n\t\t\tinfo := protoscan.New(d)\n\t\t\tfor info.Next() {\n\t\t\t\tswitch info.FieldNumber() {\n\t\t\t\tcase 1:\n\t\t\t\t\tv, err := info.Int32()\n\t\t\t\t\tif err != nil {\n\t\t\t\t\t\treturn nil, err\n\t\t\t\t\t}\n\t\t\t\t\tway.Version", ExpectRule: "E1", ExpectConstruct: "scanWays"},
@@ -69,7 +69,7 @@ func init() {
 			{Name: "panic-on-plain-nodes", File: "osmpbf/decode_data.go", Find: "return errors.New(\"osmpbf: plain (non-dense) node groups are not supported\")", Replace: "panic(\"nodes are not supported, currently untested\")", ExpectRule: "E7", ExpectConstruct: "scanPrimitiveGroup"},
 			{Name: "stale-string-table", File: "osmpbf/decode_data.go", Find: "\t\tdec.primitiveBlock.Stringtable.S = dec.primitiveBlock.Stringtable.S[:0]\n", Replace: "", ExpectRule: "E9", ExpectConstruct: "reset@"},
 			{Name: "err-swallows-unexpected-eof", File: "osmpbf/scanner.go", Find: "if s.err == io.EOF {\n\t\treturn nil\n\t}", Replace: "if s.err == io.EOF || s.err == io.ErrUnexpectedEOF {\n\t\treturn nil\n\t}", ExpectRule: "E8", ExpectConstruct: "osmpbf"},
-		},
+		}...),
 	})
 }
 
@@ -111,6 +111,9 @@ func errFlow(info *types.Info, g *cfg.CFG, errObj types.Object, pos token.Pos) (
 		}
 		if done {
 			continue
+		}
+		if len(st.b.Succs) == 0 && st.b.Kind == cfg.KindSelectAfterCase {
+			continue // "no case of a select without default is ready": the goroutine blocks, nothing is left
 		}
 		if len(st.b.Succs) == 0 {
 			return false, "a path reaches the end of the function without the error having been tested, returned or forwarded"
